@@ -38,7 +38,72 @@ def run(rep):
     rep.assumptions = ["the three-way default classification is the envelope's own lexical rule (abstract.classify_default)",
                        "InnermostRepeat is evaluated by TLC on the specification's tree"]
     _logic.run(rep, PROP, "defaults", _canaries)
+    part_lexical(rep)
+
+
+DEF_CFG = "SPECIFICATION TSpec\nCONSTANT MaxPieces = 0\nCONSTRAINT Accepted\nCHECK_DEADLOCK FALSE\n"
+
+
+def part_lexical(rep):
+    """Defaults.tla: which default texts are literals / expressions, decided on every sequence of <= 3 lexical pieces."""
+    from harness import conv, corpus, defaultgen, tlc
+
+    invs = ("RefMakesDynamic", "PlainIsStatic", "TypeOnlyMattersForMinus", "RefOnlyRaises")
+    cfg = corpus._cfg("Gen_Defaults.cfg", "SPECIFICATION DSpec\nCONSTANT MaxPieces = 3\n" + "".join(f"INVARIANT {i}\n" for i in invs) + "CONSTRAINT Emit\nCHECK_DEADLOCK FALSE\n")
+    cases, r = tlc.generate("Gen_Defaults", cfg, tag="gendef", timeout=900)
+    rep.add_mc(r, "Gen_Defaults: every sequence of <= 3 of 28 lexical pieces x {hyphen type, other type}; RefMakesDynamic, PlainIsStatic, TypeOnlyMattersForMinus, RefOnlyRaises")
+    if rep.tier == "thorough":
+        cfg4 = corpus._cfg("Gen_Defaults4.cfg", "SPECIFICATION DSpec\nCONSTANT MaxPieces = 5\nCONSTRAINT Emit\nCHECK_DEADLOCK FALSE\n")
+        c4, _ = tlc.generate("Gen_Defaults", cfg4, tag="gendef4", simulate="num=60000", depth=8, seed=rep.seed + 3, timeout=1200)
+        cases += [c for c in c4 if len(c["seq"]) >= 4]
+    rep.bounds["default_texts"] = {"max_pieces": 3, "cases": len(cases)}
+    outs = conv.map_cases(defaultgen.run, [{"seq": c["seq"], "hyphen": c["hyphen"], "k": i + rep.seed} for i, c in enumerate(cases)], chunksize=512)
+    for o in outs:
+        if o.get("status") == "harness_error":
+            raise tlc.MachineryError(o["message"] + "\n" + o.get("tb", ""))
+    tcfg = corpus._cfg("Trace_Defaults.cfg", DEF_CFG)
+    acc, info = tlc.validate_traces("Trace_Defaults", tcfg, [o["trace"] for o in outs], shards=12, tag="trdef", timeout=1500)
+    rep.traces_validated += len(acc)
+    rep.extra.setdefault("trace_runs", []).append({"source": "default texts (piece sequences) through the real default_is_dynamic", "traces": len(outs), "accepted": len(acc), "wall_s": round(info["wall"], 1)})
+    for i, o in enumerate(outs):
+        rep.case({"default_text": o["text"], "hyphen": o["job"]["hyphen"]})
+        if i in acc:
+            continue
+        l, clause = info["progress"].get(i, (0, "unexplained_event"))
+        ev = o["trace"][0]
+        rep.violation(f"{PROP}:lexical:{clause}", f"clause {clause}; default text {o['text']!r} type={ev['qtype']!r} pieces={ev['seq']} real_dynamic={ev['real_dynamic']} harness_class={ev['harness_class']}"[:500],
+                      {"lexical": True, "job": o["job"], "clause": clause})
+    ok = [o for i, o in enumerate(outs) if i in acc]
+    cans = []
+    b = next((o for o in ok if o["trace"][0]["seq"] == ["ref"]), None)
+    c = next((o for o in ok if o["trace"][0]["seq"] == ["words"]), None)
+    if b is None or c is None:
+        if rep.violations:
+            return
+        raise tlc.MachineryError("lexical part: no accepted execution to corrupt")
+    t = copy.deepcopy(b["trace"]); t[0]["real_dynamic"] = False; cans.append(("reference_taken_for_a_literal", t))
+    t = copy.deepcopy(c["trace"]); t[0]["real_dynamic"] = True; cans.append(("plain_words_taken_for_an_expression", t))
+    t = copy.deepcopy(c["trace"]); t[0]["harness_class"] = "dynamic"; cans.append(("harness_classifier_contradicts_spec", t))
+    a, _ = tlc.validate_traces("Trace_Defaults", tcfg, cans_only(cans) + [b["trace"]], shards=1, tag="canary")
+    if any(i in a for i in range(len(cans))) or len(cans) not in a:
+        raise tlc.MachineryError(f"lexical canary failure: accepted {[cans[i][0] for i in a if i < len(cans)]}")
+    rep.extra.setdefault("canaries_rejected", []).extend(x[0] for x in cans)
+
+
+def cans_only(cans):
+    return [x[1] for x in cans]
 
 
 def replay(rep, case):
+    c = case["case"]
+    if c.get("lexical"):
+        from harness import corpus, defaultgen, tlc
+
+        o = defaultgen.run(c["job"])
+        acc, info = tlc.validate_traces("Trace_Defaults", corpus._cfg("Trace_Defaults.cfg", DEF_CFG), [o["trace"]], shards=1, tag="replay")
+        rep.traces_validated += len(acc)
+        rep.case(c["job"])
+        if 0 not in acc:
+            rep.violation(f"{PROP}:lexical:{info['progress'].get(0, (0, '?'))[1]}", "replay", c)
+        return
     _logic.replay(rep, PROP, case)
